@@ -76,7 +76,7 @@ type c12Entry struct {
 
 func (c12) Run(e *Env) {
 	e.ProbeDecl("outcome-full", "outcome-partial", "outcome-empty", "outcome-error", "outcome-error+partial", "failed-refresh-keeps-instance", "evicted-idle", "requeried-after-ttl",
-		"negative-entry", "negative-to-positive", "batch-of-several", "duplicate-source-in-flight", "peek-hit", "peek-miss", "submission-parked-behind-slow-call", "emit")
+		"negative-entry", "negative-to-positive", "batch-of-several", "duplicate-source-in-flight", "peek-hit", "peek-miss", "submission-parked-behind-slow-call", "emit", "entry-kept-in-use-across-an-advance")
 	opts := gostatsd.CacheOptions{
 		CacheRefreshPeriod:        []time.Duration{50 * time.Millisecond, 100 * time.Millisecond, time.Second}[e.Draw(3)],
 		CacheTTL:                  []time.Duration{200 * time.Millisecond, time.Second, 5 * time.Second}[e.Draw(3)],
@@ -85,9 +85,11 @@ func (c12) Run(e *Env) {
 	}
 	prov := &scriptedProvider{gate: NewGate("provider"), batch: e.Range(1, 4)}
 	lim := rate.NewLimiter(rate.Inf, 1)
+	throttled := false
 	if e.Chance(1, 4) {
 		lim = rate.NewLimiter(rate.Limit(200), 1) // 5 ms apart: well above the worst-case refresh demand (4 sources x 20 ticks/s), so the dispatcher is never permanently saturated
 		if opts.CacheRefreshPeriod == time.Second && e.Bool() {
+			throttled = true
 			lim = rate.NewLimiter(rate.Limit(20), 1) // 50 ms apart: calls do wait for their token (refresh demand is 4 per second at most)
 			e.Probe("provider-calls-throttled")
 		}
@@ -398,9 +400,16 @@ func (c12) Run(e *Env) {
 			release(p, kind)
 		case 4:
 			var d time.Duration
-			switch e.Draw(4) {
+			advKind := e.Draw(4)
+			if throttled && e.Bool() {
+				advKind = 0 // short steps: submissions land while a batch waits for its token
+			}
+			switch advKind {
 			case 0:
 				d = time.Duration(1+e.Draw(20)) * time.Millisecond
+				if throttled {
+					d = time.Duration(1+e.Draw(45)) * time.Millisecond
+				}
 			case 1:
 				d = lastTick.Add(opts.CacheRefreshPeriod).Sub(time.Now())
 			case 2:
@@ -414,7 +423,14 @@ func (c12) Run(e *Env) {
 			if d > 12*time.Second {
 				d = 12 * time.Second
 			}
-			e.Event("advance %v", d)
+			// sometimes a source stays in use all the while (peeked more often than the idle period), so
+			// that its entry outlives its TTL instead of being evicted
+			keep := e.Chance(1, 3)
+			ks := srcs[e.Draw(len(srcs))]
+			if keep {
+				e.Probe("entry-kept-in-use-across-an-advance")
+			}
+			e.Event("advance %v (keeping %s in use: %v)", d, ks, keep)
 			// Long advances are taken in slices of at most ten refresh periods; a provider call that
 			// arrives meanwhile is answered between slices. (A call held across hundreds of refresh
 			// ticks only piles up duplicate re-queries that starve older ones for a long time -
@@ -424,8 +440,17 @@ func (c12) Run(e *Env) {
 				if sl > 10*opts.CacheRefreshPeriod {
 					sl = 10 * opts.CacheRefreshPeriod
 				}
+				if keep && sl > opts.CacheEvictAfterIdlePeriod/2 {
+					sl = opts.CacheEvictAfterIdlePeriod / 2
+				}
 				d -= sl
 				sleep(sl)
+				if keep {
+					e.Settle()
+					ticks()
+					seeCalls()
+					peek(ks, fmt.Sprintf("keep-alive during the advance of step %d at +%v", step, time.Since(t0)))
+				}
 				if d > 0 {
 					e.Settle()
 					ticks()
